@@ -148,8 +148,15 @@ func (db *MemDB) StoreExternal(ctx context.Context, duty core.Duty, signedSet co
 			continue
 		}
 
+		// Only the partial signatures matching the newly stored one can newly reach the threshold,
+		// any other set that reached it did so (and was triggered) when its last member was stored.
+		matching, err := matchingSigs(duty.Type, sigs, sig)
+		if err != nil {
+			return err
+		}
+
 		// Check if sufficient matching partial signed data has been received.
-		psigs, ok, err := getThresholdMatching(duty.Type, sigs, db.threshold)
+		psigs, ok, err := getThresholdMatching(duty.Type, matching, db.threshold)
 		if err != nil {
 			return err
 		} else if !ok {
@@ -172,6 +179,34 @@ func (db *MemDB) StoreExternal(ctx context.Context, duty core.Duty, signedSet co
 	}
 
 	return nil
+}
+
+// matchingSigs returns the partial signatures that have the same message root as the provided one.
+func matchingSigs(typ core.DutyType, sigs []core.ParSignedData, sig core.ParSignedData) ([]core.ParSignedData, error) {
+	if typ == core.DutySignature {
+		// Signatures do not support message roots.
+		return sigs, nil
+	}
+
+	root, err := sig.MessageRoot()
+	if err != nil {
+		return nil, err
+	}
+
+	var resp []core.ParSignedData
+
+	for _, s := range sigs {
+		r, err := s.MessageRoot()
+		if err != nil {
+			return nil, err
+		}
+
+		if r == root {
+			resp = append(resp, s)
+		}
+	}
+
+	return resp, nil
 }
 
 // Trim blocks until the context is closed, it deletes state for expired duties.
